@@ -634,7 +634,12 @@ def is_fuse_candidate(primitive_op: PrimitiveOperation) -> bool:
 def can_fuse_primitive_ops(
     primitive_op1: PrimitiveOperation, primitive_op2: PrimitiveOperation
 ) -> bool:
-    if is_fuse_candidate(primitive_op1) and is_fuse_candidate(primitive_op2):
+    if (
+        is_fuse_candidate(primitive_op1)
+        and is_fuse_candidate(primitive_op2)
+        and primitive_op1.fusable_with_successors
+        and primitive_op2.fusable_with_predecessors
+    ):
         return primitive_op1.num_tasks == primitive_op2.num_tasks
     return False
 
